@@ -15,11 +15,13 @@ import (
 	"fmt"
 	"strings"
 
+	"wvh/cmd/c02/ax"
 	"wvh/hlib"
 )
 
 type flowProg struct {
 	Coroutine bool     // thing.run is a coroutine (`run?`) rather than `run!`
+	Scalar    bool     // only constructs of the Lean model's fragment (Model/Flow.lean)
 	Body      []string // lines of thing.run's body (after the var lines), indented
 	open      int      // blocks currently open in Body
 	HasIO     bool
@@ -85,12 +87,19 @@ func (p *flowProg) header() string {
 	}
 	return flowStructText + "\npub func thing.run" + eff +
 		"(n: base.u32[..= 7], v: base.u8, data: slice base.u8, src: base.io_reader) {\n" +
-		"    var x : base.u32\n    var y : base.u8\n    var s : slice base.u8\n    var c : base.u32[..= 16]\n"
+		"    var x : base.u32\n    var y : base.u8\n" + p.sliceVar() + "    var c : base.u32[..= 16]\n"
+}
+
+func (p *flowProg) sliceVar() string {
+	if p.Scalar {
+		return ""
+	}
+	return "    var s : slice base.u8\n"
 }
 
 // render: the program, plus the candidate lines, with every open block closed.
 func (p *flowProg) render(extra ...string) string {
-	q := &flowProg{Coroutine: p.Coroutine, Body: append([]string(nil), p.Body...), open: p.open}
+	q := &flowProg{Coroutine: p.Coroutine, Scalar: p.Scalar, Body: append([]string(nil), p.Body...), open: p.open}
 	for _, l := range extra {
 		q.push(l)
 	}
@@ -117,6 +126,8 @@ type flowGen struct {
 	p     *flowProg
 	tries int
 	stats map[string]int
+	l     *loaded  // the axiom listing
+	rej   []string // sources of candidate programs the bounds checker rejected (scalar mode)
 }
 
 var flowConsts = []string{"0", "1", "2", "3", "4", "5", "7", "8", "100", "200"}
@@ -130,6 +141,9 @@ func (g *flowGen) anyConst() string   { return flowConsts[g.rd.Intn(len(flowCons
 // atomU8 / atomU32: readable places of the two scalar types used.
 func (g *flowGen) atomU8() string {
 	k := fmt.Sprint(g.rd.Intn(3))
+	if g.p.Scalar {
+		return g.pick("y", "args.v", "this.f1", "this.tab["+k+"]", "this.buf["+k+"]", "y", "this.f1")
+	}
 	switch g.rd.Intn(12) {
 	case 0:
 		return "y"
@@ -170,6 +184,22 @@ func (g *flowGen) atomU64() string {
 }
 
 func (g *flowGen) cond() string {
+	if g.p.Scalar {
+		switch g.rd.Intn(8) {
+		case 0, 1, 2:
+			return g.atomU8() + " " + g.pick(flowRel...) + " " + g.anyConst()
+		case 3, 4, 5:
+			return g.atomU32() + " " + g.pick(flowRel...) + " " + g.anyConst()
+		case 6:
+			a, b := g.atomU8(), g.atomU8()
+			return a + " " + g.pick(flowRel...) + " " + b
+		}
+		a, b := g.atomU32(), g.atomU32()
+		if g.rd.Chance(1, 4) {
+			return "(" + a + " " + g.pick(flowRel...) + " " + g.anyConst() + ") " + g.pick("and", "or") + " (" + b + " " + g.pick(flowRel...) + " " + g.anyConst() + ")"
+		}
+		return a + " " + g.pick(flowRel...) + " " + b
+	}
 	switch g.rd.Intn(10) {
 	case 0, 1, 2:
 		return g.atomU8() + " " + g.pick(flowRel...) + " " + g.anyConst()
@@ -234,6 +264,25 @@ func (g *flowGen) sliceArg() string {
 // invalidator: one statement that changes state.
 func (g *flowGen) invalidator() (kind, line string) {
 	k := fmt.Sprint(g.rd.Intn(3))
+	if g.p.Scalar {
+		n := 8
+		if g.p.Coroutine {
+			n = 11
+		}
+		switch g.rd.Intn(n) {
+		case 0, 1:
+			return "assign-local", g.pick("x = "+g.exprU32(), "y = "+g.exprU8(), "c = "+g.exprU32())
+		case 2, 3:
+			return "op-assign", g.pick("x", "c", "y", "this.f0") + " " + g.pick("+=", "-=") + " " + g.pick("1", "2", "1")
+		case 4, 5:
+			return "store-field", g.pick("this.f0 = "+g.exprU32(), "this.f1 = "+g.exprU8())
+		case 6, 7:
+			return "call-impure", g.pick("this.poke!(v: "+g.exprU8()+")", "this.bump!()", "this.fill!(v: "+g.exprU8()+")")
+		case 8, 9:
+			return "yield", `yield? base."$short read"`
+		}
+		return "coroutine-call", "this.nap?()"
+	}
 	n := 16
 	if g.p.Coroutine {
 		n = 20
@@ -277,8 +326,101 @@ func (g *flowGen) invalidator() (kind, line string) {
 
 func (g *flowGen) accepts(extra ...string) bool {
 	g.tries++
-	_, err := g.fr.check(g.p.render(extra...))
+	src := g.p.render(extra...)
+	_, err := g.fr.check(src)
+	if err != nil && g.p.Scalar && len(g.rej) < 6 && flowBoundsPhaseError(err) {
+		g.rej = append(g.rej, src)
+	}
 	return err == nil
+}
+
+// flowBoundsPhaseError: the program passed the type checker and was rejected by the
+// bounds / facts phase (the part that the Lean model mirrors).
+func flowBoundsPhaseError(err error) bool {
+	s := err.Error()
+	for _, w := range []string{"cannot prove", "is not within bounds", "inconsistent with fact", "unreachable code"} {
+		if strings.Contains(s, "check: "+w) {
+			return true
+		}
+	}
+	return false
+}
+
+// axiomUse: `if <requirement> { … assert <claim> via "<axiom>"(<args>) … }` for a listed
+// axiom instantiated with u32 atoms.
+func (g *flowGen) axiomUse() []string {
+	if g.l == nil || len(g.l.md) == 0 {
+		return nil
+	}
+	x := g.l.md[g.rd.Intn(len(g.l.md))]
+	if x == nil || len(x.Vars) == 0 || len(x.Vars) > 6 {
+		return nil
+	}
+	m := map[string]string{}
+	for _, v := range x.Vars {
+		m[v] = g.pick("x", "c", "args.n", "this.f0", "x", "c")
+	}
+	var expr func(n *ax.Node, top bool) string
+	expr = func(n *ax.Node, top bool) string {
+		if n.IsLeaf() {
+			if a, ok := m[n.Op]; ok {
+				return a
+			}
+			return n.Op
+		}
+		op := n.Op
+		if op == "!=" {
+			op = "<>"
+		}
+		s := expr(n.Lhs, false) + " " + op + " " + expr(n.Rhs, false)
+		if top {
+			return s
+		}
+		return "(" + s + ")"
+	}
+	var guards func(n *ax.Node, out *[]string)
+	guards = func(n *ax.Node, out *[]string) {
+		if n.IsLeaf() {
+			return
+		}
+		guards(n.Lhs, out)
+		guards(n.Rhs, out)
+		if n.Op == "-" {
+			*out = append(*out, expr(n.Lhs, false)+" >= "+expr(n.Rhs, false))
+		}
+	}
+	var conds []string
+	guards(x.Claim, &conds)
+	for _, r := range x.Reqs {
+		guards(r, &conds)
+	}
+	skip := -1
+	if g.rd.Chance(1, 4) {
+		skip = g.rd.Intn(len(x.Reqs)) // a requirement left out: the use should be rejected
+	}
+	for i, r := range x.Reqs {
+		if i == skip || typeProvable(r) {
+			continue
+		}
+		conds = append(conds, expr(r, true))
+	}
+	inClaim := map[string]bool{}
+	vars(x.Claim, inClaim)
+	var args []string
+	for _, v := range x.Vars {
+		if !inClaim[v] {
+			args = append(args, v+": "+m[v])
+		}
+	}
+	var lines []string
+	for _, c := range conds {
+		lines = append(lines, "if "+c+" {")
+	}
+	lines = append(lines, fmt.Sprintf("assert %s via \"%s\"(%s)", expr(x.Claim, true), x.Text, strings.Join(args, ", ")))
+	for range conds {
+		lines = append(lines, "}")
+	}
+	return lines
 }
 
 func (g *flowGen) try(kind string, lines ...string) bool {
@@ -320,6 +462,9 @@ func (g *flowGen) block(depth, budget int) {
 			}
 			if g.try("while", head+" {") {
 				g.block(depth+1, budget)
+				if g.rd.Chance(1, 3) {
+					g.try("continue-in-if", "if "+g.cond()+" {", "continue", "}")
+				}
 				if g.rd.Chance(1, 2) {
 					g.try("break", "break")
 				}
@@ -334,6 +479,10 @@ func (g *flowGen) block(depth, budget int) {
 			}
 		case r < 9:
 			g.try("assert", "assert "+g.cond())
+		case r < 11 && g.p.Scalar:
+			if lines := g.axiomUse(); lines != nil {
+				g.try("axiom-use", lines...)
+			}
 		default:
 			for a := 0; a < 3; a++ {
 				kind, line := g.invalidator()
@@ -345,10 +494,19 @@ func (g *flowGen) block(depth, budget int) {
 	}
 }
 
-func flowGenerate(rd *hlib.Rand, fr *flowFront, stats map[string]int) *flowProg {
-	p := &flowProg{Coroutine: rd.Chance(1, 2)}
-	g := &flowGen{rd: rd, fr: fr, p: p, stats: stats}
+func flowGenerate(rd *hlib.Rand, fr *flowFront, stats map[string]int, l *loaded, scalar bool) (*flowProg, []string) {
+	p := &flowProg{Coroutine: rd.Chance(1, 2), Scalar: scalar}
+	g := &flowGen{rd: rd, fr: fr, p: p, stats: stats, l: l}
 	budget := rd.Range(10, 28)
+	if scalar {
+		for len(p.Body) < budget && g.tries < 300 {
+			g.block(0, budget)
+		}
+		for p.open > 0 {
+			p.push("}")
+		}
+		return p, g.rej
+	}
 	// preamble: a local slice (an alias of an argument or of a field) and length guards, so that
 	// element reads / stores and I/O operations are accepted further down
 	if rd.Chance(2, 3) {
@@ -370,5 +528,5 @@ func flowGenerate(rd *hlib.Rand, fr *flowFront, stats map[string]int) *flowProg 
 	for p.open > 0 {
 		p.push("}")
 	}
-	return p
+	return p, nil
 }
